@@ -41,11 +41,10 @@ abbrev FS := List (String × H5File)
 structure Variant where
   d4 : Bool    -- `mv` across two files leaves the source in place
   d5 : Bool    -- `list_coolers` names what an ExternalLink reaches by its name in the target file
-  d20 : Bool   -- an unresolvable link: `is_cooler` raises KeyError, `list_coolers` AttributeError
 deriving DecidableEq, Repr, Inhabited
 
-def Variant.spec : Variant := ⟨false, false, false⟩
-def Variant.current : Variant := ⟨true, true, true⟩
+def Variant.spec : Variant := ⟨false, false⟩
+def Variant.current : Variant := ⟨true, true⟩
 
 inductive ErrClass | os | runtime | key | value | attribute
 deriving DecidableEq, Repr, Inhabited
@@ -185,6 +184,41 @@ def resolve3N (fs : FS) : Nat → String → Path → R3
 
 def loops (fs : FS) (f : String) (p : Path) : Bool := resolve3N fs LINKFUEL f p = .loop
 
+/-- twin of `resolveN` that also tracks the *name HDF5 reports* for the object (finding D5):
+`none` = the access path; after an external link the name restarts at the link's target path
+inside the target file -/
+def stepNm (fs : FS) (follow : String → Path → Option (Loc × Option Path))
+    (acc : Option (Loc × Option Path)) (x : String) : Option (Loc × Option Path) :=
+  match acc with
+  | none => none
+  | some ((f, P), nm) =>
+    match lookupE fs f (P ++ [x]) with
+    | none => none
+    | some (.group _ _) => some ((f, P ++ [x]), nm.map (· ++ [x]))
+    | some (.dataset _) => some ((f, P ++ [x]), nm.map (· ++ [x]))
+    | some (.soft t) =>
+      -- through a soft link the name stays the access path, whatever the target traverses
+      match follow f t with
+      | none => none
+      | some (l, _) => some (l, nm.map (· ++ [x]))
+    | some (.ext g t) =>
+      match follow g t with
+      | none => none
+      | some (l, nm') => some (l, some (nm'.getD t))
+
+def resolveNm (fs : FS) : Nat → String → Path → Option (Loc × Option Path)
+  | 0, f, p => p.foldl (stepNm fs (fun _ _ => none)) ((start fs f).map (·, none))
+  | n + 1, f, p => p.foldl (stepNm fs (resolveNm fs n)) ((start fs f).map (·, none))
+
+/-- name `list_coolers` gives to what an external-link child reaches: the access path (specification), or
+what HDF5 reports (variant D5) -/
+def linkName (fs : FS) (v : Variant) (g : String) (t : Path) (access : Path) : Path :=
+  if v.d5 then
+    match resolveNm fs LINKFUEL g t with
+    | some (_, some nm) => nm
+    | _ => t
+  else access
+
 /-! ### recognition and reading -/
 
 def coolerEntry : Option Entry → Bool
@@ -201,37 +235,10 @@ def isCoolerN (fs : FS) (n : Nat) (f : String) (p : Path) : Bool :=
 
 def isCoolerSpec (fs : FS) (f : String) (p : Path) : Bool := isCoolerN fs LINKFUEL f p
 
-def isLink : Option Entry → Bool
-  | some (.soft _) => true
-  | some (.ext _ _) => true
-  | _ => false
-
-/-- `grouppath in f` is true (h5py checks only that the last link exists) while `f[grouppath]`
-fails: the last component is a link that does not resolve -/
-def danglingLast (fs : FS) (f : String) (p : Path) : Bool :=
-  match p.getLast? with
-  | none => false
-  | some x =>
-    match resolve fs f p.dropLast with
-    | none => false
-    | some (g, P) => isLink (lookupE fs g (P ++ [x])) && (resolve fs f p).isNone
-
-/-- the path continues below a dangling soft link whose target is missing before its last
-component: HDF5's `H5Oexists_by_name`, called by `grouppath in f`, fails instead of answering no -/
-def throughBadSoft (fs : FS) (f : String) (p : Path) : Bool :=
-  (List.range (p.length - 1)).any fun i =>
-    match p[i]?, resolve fs f (p.take i) with
-    | some x, some (g, P) =>
-      match lookupE fs g (P ++ [x]) with
-      | some (.soft t) => t ≠ [] && (resolve fs g t.dropLast).isNone
-      | _ => false
-    | _, _ => false
-
-/-- `fileops.is_cooler` (code as it is under variant `v`) -/
-def isCooler (fs : FS) (v : Variant) (f : String) (p : Path) : Except ErrClass Bool :=
-  if v.d20 && danglingLast fs f p then .error .key
-  else if v.d20 && throughBadSoft fs f p then .error .runtime
-  else .ok (isCoolerSpec fs f p)
+/-- `fileops.is_cooler`: a missing file, a missing path, a link that does not resolve, a dataset or a
+group without the format attribute all answer `false`; there is no error outcome
+(`try: f[grouppath] except (KeyError, RuntimeError): return False`) -/
+def isCooler (fs : FS) (f : String) (p : Path) : Bool := isCoolerSpec fs f p
 
 /-- what `Cooler(uri)` reads with link budget `n`: the group must be recognised, its `pixels`
 child a group and `pixels/count` a dataset (links *inside* a payload are not modelled) -/
@@ -264,7 +271,6 @@ def childNames (es : Entries) (P : Path) : List String :=
 
 inductive Item
   | path (p : Path)      -- a recognised collection, by the name the listing gives it
-  | dangling             -- a child link that does not resolve (`values()` yields None)
   | fuel                 -- recursion budget exhausted: cyclic namespace (or a self-referential external link)
 deriving DecidableEq, Repr, Inhabited
 
@@ -283,7 +289,7 @@ def walk (fs : FS) (v : Variant) : Nat → String → Path → Path → List Ite
           (if fmtOK a then [Item.path (disp ++ [x])] else []) ++ walk fs v n f (P ++ [x]) (disp ++ [x])
         | some (.soft t) =>
           match resolve fs f t with
-          | none => if loops fs f t then [.fuel] else [.dangling]
+          | none => if loops fs f t then [.fuel] else []    -- `values()` yields None: skipped
           | some (g, Q) =>
             match lookupE fs g Q with
             | some (.group _ a) =>
@@ -294,9 +300,9 @@ def walk (fs : FS) (v : Variant) : Nat → String → Path → Path → List Ite
           -- target file creates one): the name HDF5 reports is not modelled
           if g0 = f then [.fuel] else
           match resolve fs g0 t with
-          | none => if loops fs g0 t then [.fuel] else [.dangling]
+          | none => if loops fs g0 t then [.fuel] else []
           | some (g, Q) =>
-            let d := if v.d5 then t else disp ++ [x]
+            let d := linkName fs v g0 t (disp ++ [x])
             match lookupE fs g Q with
             | some (.group _ a) =>
               (if fmtOK a then [Item.path d] else []) ++ walk fs v n g Q d
@@ -329,9 +335,7 @@ def listing (fs : FS) (v : Variant) (f : String) : Listing :=
   | none => .err .os
   | some _ =>
     let it := listItems fs v f
-    if it.contains .fuel then .cyclic
-    else if v.d20 && it.contains .dangling then .err .attribute
-    else .ok (itemPaths it)
+    if it.contains .fuel then .cyclic else .ok (itemPaths it)
 
 /-! ### URIs -/
 
@@ -499,16 +503,25 @@ def dstCorner (fs : FS) (f : String) (dp : Path) : Option String :=
     | .error (.corner why) => some why
     | _ => none
 
-/-- copy of the children of the source group into the destination root, one `src.copy` per child in
-name order; stops at the first existing name (what was copied before stays) -/
-def copyChildren (hs : H5File) (S : Path) : H5File → List String → H5File × Outcome
+/-- copy of the children of the source group `(g, S)` into the root of file `df`, one
+`src.copy(src_group + "/" + name, dst, name)` per child in name order (`H5Ocopy` follows a link
+child to its target object); stops at the first name that exists in the destination or does not
+resolve — what was copied before stays -/
+def copyChildren (fs : FS) (g : String) (S : Path) (df : String) : H5File → List String → H5File × Outcome
   | h, [] => (h, .ok)
   | h, x :: rest =>
     match lookupK h.entries [x] with
     | some _ => (h, .err .runtime)
     | none =>
-      copyChildren hs S
-        ⟨putRegion h.entries [x] (shiftOids h.next (getRegion hs.entries (S ++ [x]))), h.next + hs.next⟩ rest
+      match resolve fs g (S ++ [x]) with
+      | none => (h, .err .runtime)
+      | some (g', Q) =>
+        if g' = df then (h, .corner "source reaches the destination file through a link") else
+        match getFile fs g' with
+        | none => (h, .corner "unreachable")
+        | some hs =>
+          copyChildren fs g S df
+            ⟨putRegion h.entries [x] (shiftOids h.next (getRegion hs.entries Q)), h.next + hs.next⟩ rest
 
 /-- `fileops._copy(src_uri, dst_uri, overwrite, link, rename, soft_link)` on parsed URIs.
 `v.d4 = false` is the specification (`mv` removes the source also across files). -/
@@ -589,7 +602,7 @@ def copyOp (fs : FS) (v : Variant) (sf : String) (sp : Path) (df : String) (dp :
                   match lookupK hd.entries [] with
                   | some (.group o a) =>
                     if sharedOid hd.entries o then (fs1, .corner "root group is multiply linked") else
-                    match copyChildren hs S hd (childNames hs.entries S) with
+                    match copyChildren fs1 g S df hd (childNames hs.entries S) with
                     | (h1, .ok) =>
                       (setFile fs1 df ⟨setEntry h1.entries [] (.group o (attrsUpdate a sattrs)), h1.next⟩, .ok)
                     | (h1, o) => (setFile fs1 df h1, o)
